@@ -97,6 +97,15 @@ def run(ctx):
                 ctx.check(R2, okc, 'site:%s.%s' % (key[0], path), 'growth of %s is allow-listed only because it is cleared first, and it no longer is' % path, fn=sf, at=t.get('span'), detail=bound)
             else:
                 ctx.violation(R2, 'site:%s.%s' % (key[0], path), 'a container rooted in stream state grows (%s on %s: %s) at a site that is not on the allow-list: heap may now grow with the number of keys visited or emitted' % (g.rsplit('::', 1)[-1], path, key[1]), fn=sf, at=t.get('span'))
+    # "cleared per candidate key": the entry lists of the set operations are bounded by the number of streams only if the clear
+    # happens for EVERY candidate (after its slot is taken, before its first entry) - not once per call (R05.4)
+    import rules.C05 as C05
+    ctx.rule('R05.4', 'outs discipline: cleared once per candidate key, one (index, value) entry per popped slot taken from that slot', floor=3)
+    if all(lib.fn(q) is not None for q in C05.TAKERS):
+        for name, path in C05.OPS.items():
+            g = lib.fn(path)
+            if g is not None and name != 'difference':
+                ctx.step(C05.r05_4_clear, ctx, name, g)
     # per-step allocations other than the allow-listed growth
     als, _ = growth.alloc_sites(lib, cg, nexts)
     for g, t, x in als:
